@@ -74,6 +74,21 @@ theorem lap_cost_eq_duals (n : Nat) (c : Nat → Nat → ℝ) (σ ρ : Nat → N
   rw [Finset.sum_congr rfl (fun i _ => this i), Finset.sum_add_distrib,
     Equiv.sum_comp π (fun i : Fin n => v i.val)]
 
+/-- two certified answers for the same cost matrix have the same total cost: the optimum is unique
+even when the optimal assignment is not (ties) — so any tie-breaking inside the solver is admissible -/
+theorem lap_certified_cost_unique (n : Nat) (c : Nat → Nat → ℝ) (σ ρ σ' ρ' : Nat → Nat) (u v u' v' : Nat → ℝ)
+    (hp : permB n σ ρ = true) (hc : certB n c σ u v = true) (hp' : permB n σ' ρ' = true) (hc' : certB n c σ' u' v' = true) :
+    cost n c σ = cost n c σ' := by
+  obtain ⟨π, hπ⟩ := perm_of_permB hp
+  obtain ⟨π', hπ'⟩ := perm_of_permB hp'
+  have e : ∀ (s : Nat → Nat) (τ : Equiv.Perm (Fin n)), (∀ i : Fin n, (τ i).val = s i.val) → cost n c s = ∑ i : Fin n, c i.val (τ i).val := by
+    intro s τ h
+    rw [cost, sumTo_fin]
+    exact Finset.sum_congr rfl (fun i _ => by rw [h i])
+  apply le_antisymm
+  · rw [e σ' π' hπ']; exact lap_certificate n c σ ρ u v hp hc π'
+  · rw [e σ π hπ]; exact lap_certificate n c σ' ρ' u' v' hp' hc' π
+
 /-- non-vacuity: the identity assignment of the `2 × 2` cost matrix `[[1,2],[3,1]]` with `u = (1,1)`,
 `v = (0,0)` is a permutation and is certified -/
 example : permB 2 (fun i => i) (fun j => j) = true ∧
